@@ -49,6 +49,9 @@ type Case struct {
 	A   Val    `json:"a"`
 	B   Val    `json:"b"`
 	Rel string `json:"rel,omitempty"`
+	// Reslice [lo, hi]: A is a slice and B is not a value of its own but `a[lo:hi]`, a view that
+	// shares A's storage (B holds the elements that view has)
+	Reslice []int `json:"reslice,omitempty"`
 }
 
 func vNil() Val            { return Val{K: "nil"} }
@@ -827,6 +830,8 @@ var shapes = []string{
 	"prim-prim", "prim-prim",
 	"container-mutated", "container-mutated", "container-mutated", "container-mutated",
 	"container-any",
+	"int-neighbours",
+	"reslice",
 }
 
 func genCase(t *rapid.T) Case {
@@ -936,6 +941,30 @@ func genCase(t *rapid.T) Case {
 		var m string
 		b, m = mutate(t, a)
 		rel += ":" + m
+	case "int-neighbours":
+		// two int64 values that are equal or next to each other; beyond 2^53 neighbours collapse to one float64
+		i := vals.Int().Draw(t, "i")
+		if rapid.Bool().Draw(t, "huge") {
+			i = rapid.SampledFrom([]int64{1 << 53, 1<<53 + 1, -(1 << 53) - 1, 1 << 60, 1<<62 + 1, math.MaxInt64, math.MaxInt64 - 1, math.MinInt64, math.MinInt64 + 1}).Draw(t, "hugei")
+		}
+		a, b = vInt(i), vInt(i+rapid.Int64Range(-2, 2).Draw(t, "delta"))
+	case "reslice":
+		// a slice against a view of itself: same storage, possibly fewer elements
+		n := rapid.IntRange(0, 4).Draw(t, "len")
+		a = Val{K: "slice"}
+		for i := 0; i < n; i++ {
+			a.E = append(a.E, genLeaf(t))
+		}
+		lo := rapid.IntRange(0, n).Draw(t, "lo")
+		if rapid.IntRange(0, 2).Draw(t, "fromzero") > 0 {
+			lo = 0
+		}
+		hi := rapid.IntRange(lo, n).Draw(t, "hi")
+		b = Val{K: "slice"}
+		for _, e := range a.E[lo:hi] {
+			b.E = append(b.E, e.clone())
+		}
+		return Case{A: a, B: b, Rel: rel, Reslice: []int{lo, hi}}
 	case "container-any":
 		a = genContainer(t, rapid.IntRange(1, 2).Draw(t, "depth"))
 		switch rapid.IntRange(0, 3).Draw(t, "other") {
@@ -1097,11 +1126,27 @@ func oracle(c Case, o *h.Obs) *h.Fail {
 		}
 	}
 
+	if len(c.Reslice) == 2 {
+		lo, hi := c.Reslice[0], c.Reslice[1]
+		if a.K != "slice" || lo < 0 || hi < lo || hi > len(a.E) || len(b.E) != hi-lo {
+			o.Excluded = "malformed_case"
+			return nil
+		}
+		o.Class("b_is_a_view_of_a")
+	}
 	modes := []struct{ name, src string }{
 		{"literal", script("", la, lb, numeric, ka, kb)},
 		{"variable", script("a = "+la+"\nb = "+lb+"\n", "a", "b", numeric, ka, kb)},
 		// operands read from list elements reach equal() as interface-kinded values
 		{"element", script("ea = ["+la+"]\neb = ["+lb+"]\n", "ea[0]", "eb[0]", numeric, ka, kb)},
+	}
+	if len(c.Reslice) == 2 {
+		view := fmt.Sprintf("a[%d:%d]", c.Reslice[0], c.Reslice[1])
+		modes = []struct{ name, src string }{
+			{"variable and a view of it", script("a = "+la+"\nb = "+view+"\n", "a", "b", numeric, ka, kb)},
+			{"variable and a view expression", script("a = "+la+"\n", "a", view, numeric, ka, kb)},
+			{"elements holding the slice and its view", script("a = "+la+"\nea = [a]\neb = ["+view+"]\n", "ea[0]", "eb[0]", numeric, ka, kb)},
+		}
 	}
 	var first []bool
 	for mi, m := range modes {
